@@ -120,7 +120,7 @@ PERTURB = [None, "tp.pop=-1", "tp.pop=2000/300,tp.done=1000/300", "tp.done=3000/
 def run(ctx):
     b = build(ctx)
     vfcore.ensure_tree("plain")
-    n = ctx.n(16, 600)
+    n = ctx.n(16, 200)
     ctx.cov["rule"] = ("case = (5..60 generated .check files, --discard-commands-failure mode, -j in {2,3,4,8,16}, hook delay plan); each case is run "
                        "with -j 1 and with -j n; distinct = distinct case hash; non-trivial = at least one failing and one succeeding file")
 
